@@ -6,7 +6,7 @@ From Coq Require Import NArith List Bool String.
 From BM Require Import Base.Outcome Base.Prims Base.Layout Spec.CastSpec.
 From BM Require Import Proofs.CastValue Proofs.CastPanicking Proofs.CastChecked Proofs.RootTwins.
 From BM.Gen Require Internal Root Checked.
-From BM Require Import Base.Own Model.Alloc Proofs.AllocGen.
+From BM Require Import Base.Own Model.Alloc Proofs.AllocGen Proofs.AllocGenBytes.
 Open Scope string_scope.
 Open Scope N_scope.
 
@@ -69,12 +69,22 @@ Theorem C11_owned : forall k ENV A B c, gen_pre k A c ->
     end.
 Proof. exact gen_twin. Qed.
 
+(* from_box_bytes / try_from_box_bytes (translated; `unsized_T` selects the impl for [T] or for T) *)
+Theorem C11_from_box_bytes : forall ENV T u b,
+  exists r, Gen.Alloc.try_from_box_bytes ENV T u b = Ret r /\
+    match r with
+    | Ok c => Gen.Alloc.from_box_bytes ENV T u b = Ret c
+    | Err (e, b0) => Gen.Alloc.from_box_bytes ENV T u b = Panic (W_unwrap (EP e)) /\ b0 = b
+    end.
+Proof. exact gen_from_box_bytes_twin. Qed.
+
 Example C11_nonvacuous :
   let E := mkEnv (fun _ => false) (fun _ => 0) (fun _ _ => 0) in
   Root.cast_ref E (mkTy 4 1) (mkTy 4 4) (mkPtr 4097 4) = Panic (W_msg "cast_ref" (EP TargetAlignmentGreaterAndInputNotAligned)) /\
   Root.cast_ref E (mkTy 4 1) (mkTy 4 4) (mkPtr 4096 4) = Ret (mkPtr 4096 4).
 Proof. split; vm_compute; reflexivity. Qed.
 
+Print Assumptions C11_from_box_bytes.
 Print Assumptions C11_cast_slice.
 Print Assumptions C11_cast_slice_mut.
 Print Assumptions C11_cast_ref.
